@@ -37,6 +37,7 @@ impl Alphanumeric for String {
     }
 
     fn _capitalize(&self) -> Self {
+        if self.is_empty() { return self.clone() }
         let mut chars: Vec<char> = self.chars().collect();
         chars[0] = chars[0].to_uppercase().next().unwrap();
         chars.into_iter().collect()
@@ -96,7 +97,10 @@ impl Alphanumeric for String {
     }
 
     fn _rsplit(&self, sep: Self, max_split: Option<usize>) -> List<Self> {
-        List(self.chars().rev().collect::<Self>()._split(sep, max_split).0.reverse_ext())
+        let result: Vec<&str> = max_split.map_or_else(
+            || str::rsplit(self, &sep).collect(),
+            |split| self.rsplitn(split, &sep).collect());
+        List(result.into_iter().rev().map(ToString::to_string).collect())
     }
 
     fn _splitlines(&self, keep_ends: bool) -> List<Self> {
@@ -134,19 +138,9 @@ impl Alphanumeric for String {
     }
 
     fn _replace(&self, old: Self, new: Self, count: Option<usize>) -> Self {
-        let mut replaced_count = 0;
-        let mut replaced_string = self.clone();
-
-        while let Some(index) = replaced_string.find(old.as_str()) {
-            if count.is_some() && replaced_count >= count.unwrap() {
-                break;
-            }
-
-            replaced_string.replace_range(index..index + old.len(), new.as_str());
-            replaced_count += 1;
-        }
-
-        replaced_string
+        count.map_or_else(
+            || self.replace(old.as_str(), new.as_str()),
+            |count| self.replacen(old.as_str(), new.as_str(), count))
     }
 
     fn _strip(&self, chars: Self) -> Self {
